@@ -22,6 +22,10 @@ CLAIMED['C10'] = dict(engine='E2', technique='Coq model of the regex tokenizer p
     text='Partial. Machine-checked: the tokenizer model is pinned to the exact regular expressions / lexer tables of the current source (any edit breaks an obligation), totality (command list or ValueError), agreement with the grammar on an adversarial table. Soundness against the grammar for all strings and the print/parse round trip are not yet theorems: they are decided on every run by the exhaustive correspondence (implementation = model on 6*10^5 strings) and the grammar judge evaluated on the implementation.',
     note='Hand model (H) of regex semantics; CPython float()/repr() trusted; ASCII only; one fix commit (leading zeros).',
     design='§7 C10')
+CLAIMED['C15'] = dict(engine='E6', technique='Coq: static analysis of cache-bookkeeping skeletons (extracted from svg.py on every run) proved sound for every interpretation satisfying the two flush/populate laws; table check by vm_compute; history differential (all histories <=2/3 steps x corpus) against the re-parse reference',
+    text='Proof for histories of any length over the methods whose regenerated skeleton passes the verified analysis (all public methods except apply_style_attributes, a recorded finding): lazily cached run = re-parse-between-steps run; copies leave the receiver unchanged; in-place bodies return the receiver (syntactic check of every return). The primitives (what an edit or mutation does, the two conversion laws) are abstract and exercised by the history differential.',
+    note='Skeleton extractor (tools/skeletons.py) trusted and fail-closed; laws populate(flush t c)=c and flush(flush t c)c\'=flush t c\' assumed of the dataclass<->element conversion; lxml round trip trusted. Axiom-free.',
+    design='§7 C15')
 PENDING = {}
 
 def main():
@@ -51,6 +55,7 @@ def main():
                   'enable': 'none needed: the harness observes picosvg only through its public API (PYTHONPATH=/repo/src) and calls pathops itself',
                   'baseline_off_cmd': BASE, 'source_commits': [], 'add_only': True},
         'engines': [
+            {'name': 'E6', 'path': 'coq/gen/G_skeletons.v (generated) coq/model/ObjCache.v coq/proofs/E6_cache.v', 'serves_properties': ['C15', 'C16'], 'kind_free_text': 'cache/tree state machine and verified skeleton analysis'},
             {'name': 'E2', 'path': 'coq/model/Lex.v coq/model/PathParse.v coq/model/TransformParse.v coq/spec/PathGrammar.v coq/gen/G_regex.v coq/proofs/E2_*.v', 'serves_properties': ['C10', 'C11', 'C05'], 'kind_free_text': 'character-level lexers pinned to the source regexes; SVG path grammar'},
             {'name': 'E3', 'path': 'coq/gen/G_types.v coq/gen/G_meta.v (generated) coq/model/Walk.v coq/spec/PathSem.v coq/proofs/E3_*.v', 'serves_properties': ['C09', 'C18', 'C20', 'C01', 'C07'], 'kind_free_text': 'walk state machine and path rewrites vs SVG path semantics'},
             {'name': 'E4', 'path': 'coq/gen/G_arc.v (generated) coq/model/Arc.v coq/proofs/E4_*.v', 'serves_properties': ['C12', 'C09'], 'kind_free_text': 'arc to cubic numerics over R'},
